@@ -51,7 +51,7 @@ func checkC01(c *Ctx) {
 	if c.Thorough() {
 		cases = append(cases, ntCase{6, 2}, ntCase{6, 4}, ntCase{6, 6}, ntCase{7, 2}, ntCase{7, 4}, ntCase{7, 7})
 	}
-	reps := c.Pick(2, 40)
+	reps := c.Pick(6, 120)
 	type job struct {
 		nt  ntCase
 		rep int
